@@ -9,6 +9,7 @@ import (
 	"github.com/nyaruka/goflow/envs"
 	"github.com/nyaruka/goflow/flows"
 	"github.com/nyaruka/goflow/flows/resumes"
+	"github.com/nyaruka/goflow/flows/triggers"
 	"verif/mc"
 	"verif/world"
 )
@@ -242,8 +243,9 @@ func RefreshRoots() []EngineRoot {
 // ("live|" = the session object is kept; otherwise it is marshalled and read back before the resume;
 // env:far = the resume carries an environment in a timezone where the calendar day differs)
 // env:mid = a timezone in which the contacts' creation instant is exactly a local midnight
+// "again": a second session started with the very contact object the first trigger holds
 // "!expire": the environment arrives with a run_expiration resume, which brings neither message nor contact
-var Histories = [][]string{{}, {"msg:Dog"}, {"refresh:Dog"}, {"env:far:Dog"}, {"live|env:far:Dog"}, {"env:mid:Dog"}, {"env:far:!expire"}, {"live|env:far:!expire"}, {"expire"}}
+var Histories = [][]string{{}, {"msg:Dog"}, {"refresh:Dog"}, {"env:far:Dog"}, {"live|env:far:Dog"}, {"env:mid:Dog"}, {"env:far:!expire"}, {"live|env:far:!expire"}, {"expire"}, {"again"}}
 
 // SprintObs is what one engine call exposes to the contact-family oracles.
 type SprintObs struct {
@@ -303,6 +305,21 @@ func Execute(r *EngineRoot, hist []string) ([]*SprintObs, error) {
 		}
 		observe("start", x, before, it)
 		for _, ev := range hist {
+			if ev == "again" {
+				// a second session of the same flow on the same engine and assets, whose trigger holds the
+				// very contact object the first trigger holds (a host that starts several flows for a
+				// contact it has loaded once)
+				if x.Err != nil {
+					return
+				}
+				first := x.Session.Trigger()
+				before, _ := json.Marshal(first.Contact())
+				trig := triggers.NewBuilder(first.Environment(), first.Flow(), first.Contact()).Manual().Build()
+				x.Calls++
+				x.Session, x.Sprint, x.Err = x.Eng.NewSession(x.SA, trig)
+				observe("again", x, before, "")
+				continue
+			}
 			if x.Err != nil || x.Session.Status() != flows.SessionStatusWaiting {
 				return
 			}
